@@ -6,6 +6,7 @@ Cap = 1
 AllowRetire = FALSE
 FixRetire = TRUE
 FixReset = FALSE
+FixRetireSet = TRUE
 INVARIANTS AtMostOnce JoinAfterDone QueueOK
 PROPERTY Live
 CONSTANT defaultInitValue = defaultInitValue
